@@ -140,8 +140,9 @@ def run_exclude(ctx, case, verbose=False):
         for t in (cur.get(x), want.get(x)):
             if t:
                 bad0 |= {i[0] for i in t["idx"]}
+    pt, pcol, pidx = case.get("ptable", "m_s"), case.get("pcol", "secret"), case.get("pidx", "ix_secret")
     if sub:
-        bad0 |= {"secret", "ix_secret"}
+        bad0 |= {x for x in (pcol, pidx) if x}
     import re
     seen = named = None
     if hcl_inspect_err is not None:
@@ -156,7 +157,13 @@ def run_exclude(ctx, case, verbose=False):
                 named |= L.targets(s_)
     elif irc == 0:
         seen = set(re.findall(r'^table "([^"]+)"', iout, re.M))
-        named = set(re.findall(r'^\s*(?:table|column|index) "([^"]+)"', iout, re.M))
+        named = set(re.findall(r'^\s*(?:%s) "([^"]+)"' % ("column|index" if sub else "table|column|index"), iout, re.M))
+        if sub and pcol and "[type=" not in case["patterns"][0]:
+            # a pattern without selector also removes the indexes / foreign keys built on the column: nothing may still refer to it
+            sect = [x for x in re.split(r'^table "', iout, flags=re.M) if x.startswith(pt + '"')]
+            if sect and re.search(r"column\.%s\b" % re.escape(pcol), sect[0]):
+                v.add("cli|excl|inspect|excluded-column-referenced", "schema inspect with the patterns %r still refers to the excluded column %s.%s: %s"
+                      % (case["patterns"], pt, pcol, re.findall(r".*column\.%s\b.*" % re.escape(pcol), sect[0])[:2]))
     if seen is None:
         v.add("cli|excl|inspect|error", "schema inspect failed rc=%d: %s" % (irc, (ierr or iout)[-400:]))
     else:
@@ -196,7 +203,12 @@ def run_exclude(ctx, case, verbose=False):
                 if t:
                     bad |= {i[0] for i in t["idx"]}
         if sub:
-            bad |= {"secret", "ix_secret"}
+            bad |= {x for x in (pcol, pidx) if x}
+            if case["fate"].endswith("-same") or case["fate"].startswith("main-"):
+                # both sides are identical once the patterns are applied: whatever is planned touches an excluded resource or one
+                # that matches no pattern and does not differ
+                if stmts:
+                    v.add("cli|excl-sub|plan-for-identical-states|" + case["fate"], "database and file agree outside the excluded resources, yet the plan is: %s" % "; ".join(stmts)[:500])
         for s in stmts:
             hit = L.targets(s) & bad
             if hit:
@@ -207,21 +219,22 @@ def run_exclude(ctx, case, verbose=False):
             if n in ex:
                 continue
             wf = L.want_facts(t)
-            if sub and n == "m_s":
+            if sub and n == pt:
                 lost = []
                 got = fa.get(n)
-                if got is None or "secret" not in got["cols"] or got["rows"].get("secret") != fb[n]["rows"]["secret"]:
-                    lost.append("column secret (with its rows)")
-                if got is None or "ix_secret" not in got["idx"]:
-                    lost.append("index ix_secret")
+                if got is None or pcol not in got["cols"] or got["rows"].get(pcol) != fb[n]["rows"][pcol]:
+                    lost.append("column %s (with its rows)" % pcol)
+                if pidx and (got is None or pidx not in got["idx"]):
+                    lost.append("index %s" % pidx)
                 if lost:
                     if case["fate"] == "retype" and L.rebuilt(stmts, n):
-                        v.add(KNOWN_REBUILD_EXCL, "excluded %s of m_s lost: the table is rebuilt from the desired definition" % " and ".join(lost), {"plan": stmts})
+                        v.add(KNOWN_REBUILD_EXCL, "excluded %s of the table lost: the table is rebuilt from the desired definition" % " and ".join(lost), {"plan": stmts})
                     else:
-                        v.add("cli|excl-sub|lost|" + case["fate"], "excluded %s of m_s lost (fate %s)" % (" and ".join(lost), case["fate"]), {"plan": stmts})
+                        v.add("cli|excl-sub|lost|" + case["fate"], "excluded %s of the table lost (fate %s)" % (" and ".join(lost), case["fate"]), {"plan": stmts})
                     continue
-                wf["cols"]["secret"] = fb[n]["cols"]["secret"]
-                wf["idx"]["ix_secret"] = (["a"], False)
+                wf["cols"][pcol] = fb[n]["cols"][pcol]
+                if pidx:
+                    wf["idx"][pidx] = (["a"], False)
                 # indexes / foreign keys made of the excluded column: no demand (S)
                 nd = case.get("nodemand", {"idx": [], "fks": []})
                 for i in nd["idx"]:
@@ -413,7 +426,7 @@ def report(ctx, case, v, sample, verbose):
 
 
 def gen_cases(ctx):
-    nx, ns, nk = ctx.pick(28, 280), ctx.pick(14, 84), ctx.pick(30, 300)
+    nx, ns, nk = ctx.pick(28, 280), ctx.pick(20, 120), ctx.pick(30, 300)
     cases = []
     for i in range(nx):
         cases.append(L.gen_exclude_case(ctx.rand("x", i), i))
